@@ -2781,6 +2781,10 @@ class HasTraits(CHasTraits, metaclass=MetaHasTraits):
             # a synchronisation while the change is being propagated.
             for object, object_name in list(info[name].values()):
                 object = object()
+                if object is None:
+                    # The partner was garbage collected while the change
+                    # was being propagated.
+                    continue
                 if object_name not in object._get_sync_trait_info()[""]:
                     try:
                         setattr(object, object_name, new)
@@ -2804,6 +2808,10 @@ class HasTraits(CHasTraits, metaclass=MetaHasTraits):
             # a synchronisation while the change is being propagated.
             for object, object_name in list(info[name].values()):
                 object = object()
+                if object is None:
+                    # The partner was garbage collected while the change
+                    # was being propagated.
+                    continue
                 if object_name not in object._get_sync_trait_info()[""]:
                     try:
                         if index.step is None or event.added:
